@@ -49,7 +49,25 @@ Definition bytes_repr1 (quote c : N) : text :=
   else if (c <? 32) || (127 <=? c) then [BSL; 120; hex_digit (c / 16); hex_digit (c mod 16)]
   else [c].
 
-Definition bytes_escape (b : text) : text := flat_map (bytes_repr1 (bytes_quote b)) b.
+(* body = repr(b)[2:-1]; if repr() used double quotes: body = body.replace(single quote, backslash + single quote)
+   (fix: commit 69ea9c3) *)
+Definition requote1 (c : N) : text := if N.eqb c SQ then [BSL; SQ] else [c].
+
+Definition bytes_escape (b : text) : text :=
+  let q := bytes_quote b in
+  let body := flat_map (bytes_repr1 q) b in
+  if N.eqb q DQ then flat_map requote1 body else body.
+
+(* ---- the definitions before the fix: commits 69ea9c3 and e76b12d, kept for the _old_refuted witnesses ---- *)
+Definition bytes_escape_old (b : text) : text := flat_map (bytes_repr1 (bytes_quote b)) b.
+
+Definition str_escape_tab_old : list (N * text) :=
+  [(39, [92; 39]); (9, [92; 116]); (13, [92; 114]); (10, [92; 110]); (12, [92; 102]); (11, [92; 118]); (92, [92; 92])].
+Definition enc_old (c : N) : text :=
+  match assoc_esc str_escape_tab_old c with Some r => r | None => [c] end.
+Definition str_escape_old (s : text) : text :=
+  let t := flat_map enc_old s in
+  if existsb is_surrogate t then flat_map backslashreplace1 t else t.
 
 (* str.split(NL) *)
 Fixpoint split_nl (s : text) : list text :=
